@@ -33,6 +33,34 @@ pub struct HistSc {
     /// C01/C02 monitor: evaluated after every `check_every`-th call and after the last one
     #[serde(default = "one")]
     pub check_every: usize,
+    /// a *wear* run (the fields above except `flavour` and `hash_seed` are then unused): see `Wear`
+    #[serde(default)]
+    pub wear: Option<Wear>,
+}
+
+/// Wear: state that only goes wrong after MANY changes of one list - a revision counter, epoch
+/// or generation number that wraps between a lookup and the call that trusts what the lookup
+/// left behind. Nodes: 0 = the worn node u, 1 = v (joined to u by two parallel edges with another
+/// entry between them), 2 = x (the entry in front), 3 = z (what the wear connects to).
+///   1. a lookup of v on u;  2. the entry in front goes away;  3. `k` connects grow the same list,
+///   with no lookup on u in between;  4. one of the two u-v edges is removed.
+/// Afterwards both endpoints must have dropped the SAME edge. Only the end state is compared
+/// (and the lists are up to 65 538 entries long), so a run costs a few milliseconds.
+#[derive(Clone, Debug, Serialize, Deserialize, PartialEq)]
+pub struct Wear {
+    pub k: usize,
+    /// 0: u's outgoing (undirected: created) list wears, 1: its incoming list
+    pub side: u8,
+    /// 0 is_connected, 1 find_outbound / find_inbound / find_adjacent, 2 a refused try_connect, 3 none
+    pub lookup: u8,
+    /// 0: x leaves by `isolate`, 1: by `disconnect`, 2: stays
+    pub front: u8,
+    /// undirected only: the final `disconnect` is called on v instead of u
+    pub last_by_other: bool,
+    /// the worn list before anything happens: 0 [x, v:e1, v:e2, z], 1 [v:e1, x, v:e2, z],
+    /// 2 [x, v:e1, z, v:e2], 3 [z, v:e1, x, v:e2]
+    #[serde(default)]
+    pub layout: u8,
 }
 
 fn two() -> u8 {
@@ -62,6 +90,125 @@ fn order_preserved(before: &[(usize, u64)], after: &[(usize, u64)]) -> bool {
     a == b
 }
 
+fn run_wear<F: Flavour>(w: &Wear, verdict: Verdict, stats: &mut Stats, solo: &Solo) -> Option<(Violation, usize)> {
+    use crate::payload::EVal;
+    stats.inc("wear_runs");
+    stats.mark("wear_changes_between_lookup_and_use", w.k as u64);
+    solo.set_budget(40 * w.k as u64 + 1_000_000);
+    let world = World::<F>::new(&[0, 1, 2, 3], false);
+    let (u, v, x, z) = (0usize, 1usize, 2usize, 3usize);
+    let mut model = Model::new(F::DIRECTED, 4);
+    let mut next = 100u64;
+    let pair = |a: usize| if w.side == 0 { (u, a) } else { (a, u) };
+    let order = match w.layout % 4 {
+        0 => [x, v, v, z],
+        1 => [v, x, v, z],
+        2 => [x, v, z, v],
+        _ => [z, v, x, v],
+    };
+    for a in order {
+        next += 1;
+        let (s, t) = pair(a);
+        F::connect(&world.nodes[s], &world.nodes[t], EVal::new(next));
+        model.edges.push(crate::model::MEdge { val: next, u: s, v: t });
+    }
+    let fail = |class: &str, what: String| Some((Violation::new(class.to_string(), format!("wear run {w:?}: {what}")), 0usize));
+    let body = caught(|| {
+        // 1. the lookup
+        let (s, t) = pair(v);
+        match w.lookup {
+            0 => {
+                let _ = if w.side == 0 { F::is_connected(&world.nodes[u], v) } else { F::find_in(&world.nodes[u], v).is_some() };
+            }
+            1 => {
+                let _ = if w.side == 0 { F::find_out(&world.nodes[u], v).is_some() } else { F::find_in(&world.nodes[u], v).is_some() };
+            }
+            2 => {
+                // refused: the pair is connected (on side 1 the caller is v; u's incoming list is
+                // then looked at through find_inbound as well)
+                let _ = F::try_connect(&world.nodes[s], &world.nodes[t], EVal::new(99));
+                if w.side == 1 {
+                    let _ = F::find_in(&world.nodes[u], v);
+                }
+            }
+            _ => {}
+        }
+        // 2. the entry in front leaves
+        match w.front {
+            0 => F::isolate(&world.nodes[x]),
+            1 => {
+                let (s, t) = pair(x);
+                let _ = F::disconnect(&world.nodes[s], t);
+            }
+            _ => {}
+        }
+        // 3. the wear
+        for i in 0..w.k {
+            let (s, t) = pair(z);
+            F::connect(&world.nodes[s], &world.nodes[t], EVal::new(1000 + i as u64));
+        }
+        // 4. one of the two u-v edges goes
+        let (s, t) = pair(v);
+        let (caller, key) = if !F::DIRECTED && w.last_by_other { (t, s) } else { (s, t) };
+        F::disconnect(&world.nodes[caller], key)
+    });
+    if w.front != 2 {
+        model.edges.retain(|e| e.u != x && e.v != x);
+    }
+    for i in 0..w.k {
+        let (s, t) = pair(z);
+        model.edges.push(crate::model::MEdge { val: 1000 + i as u64, u: s, v: t });
+    }
+    let removed = match body {
+        Caught::Ok(Ok(val)) => val.0,
+        Caught::Ok(Err(e)) => return fail("contract:disconnect", format!("the final disconnect of an existing edge failed: {e:?}")),
+        Caught::Panic(m) | Caught::Abort(m) => return fail("panic:wear", format!("a call did not return: {m}")),
+    };
+    match model.edges.iter().position(|e| e.val == removed && (e.u == v || e.v == v)) {
+        Some(i) => {
+            model.edges.remove(i);
+        }
+        None => return fail("contract:disconnect", format!("the final disconnect returned {removed}, which is not the value of an edge between the two nodes")),
+    }
+    let check = caught(|| match verdict {
+        Verdict::Contract => world.compare_with(&model),
+        Verdict::Mirror => world.check_invariant_level(1),
+        // (the general symmetry monitor counts every entry against every other; on lists of
+        // 65 000 entries the same comparison is done here by sorting)
+        Verdict::Symmetry => {
+            let mut seen: std::collections::BTreeMap<(usize, usize, u64), [usize; 2]> = std::collections::BTreeMap::new();
+            for a in 0..world.n() {
+                for (b, val) in world.lists(a).0 {
+                    let (lo, hi) = (a.min(b), a.max(b));
+                    seen.entry((lo, hi, val)).or_insert([0, 0])[(a != lo) as usize] += 1;
+                }
+                if F::out_degree(&world.nodes[a]) != world.lists(a).0.len() {
+                    return Err(format!("node {a}: degree {} but {} entries listed", F::out_degree(&world.nodes[a]), world.lists(a).0.len()));
+                }
+            }
+            for ((a, b, val), c) in seen {
+                let ok = if a == b { c[0] % 2 == 0 } else { c[0] == c[1] };
+                if !ok {
+                    return Err(format!("edge {{{a},{b}}} value {val}: listed {}x at {a} but {}x at {b}", c[0], c[1]));
+                }
+            }
+            Ok(())
+        }
+    });
+    match check {
+        Caught::Ok(Ok(())) => None,
+        Caught::Ok(Err(m)) => fail(
+            match verdict {
+                Verdict::Contract => "effect:disconnect",
+                Verdict::Mirror => "mirror",
+                Verdict::Symmetry => "symmetry",
+            },
+            m,
+        ),
+        Caught::Panic(m) | Caught::Abort(m) => fail("panic:wear", format!("the graph cannot be read back: {m}")),
+    }
+}
+
 fn run<F: Flavour>(sc: &HistSc, verdict: Verdict, stats: &mut Stats) -> Option<(Violation, usize)> {
     crate::keys::set_style(crate::keys::style_from(sc.hash_seed));
     hashseam::set_seed(sc.hash_seed);
@@ -69,7 +216,10 @@ fn run<F: Flavour>(sc: &HistSc, verdict: Verdict, stats: &mut Stats) -> Option<(
     if F::SYNC {
         solo.install();
     }
-    let res = run_inner::<F>(sc, verdict, stats, &solo);
+    let res = match &sc.wear {
+        Some(w) => run_wear::<F>(w, verdict, stats, &solo),
+        None => run_inner::<F>(sc, verdict, stats, &solo),
+    };
     if F::SYNC {
         let st = solo.stats();
         stats.add("lock_acquisitions", st.acquisitions);
@@ -334,6 +484,7 @@ impl Hist {
             ops,
             monitor: *rng.pick(&[0u8, 1, 2]),
             check_every: 1,
+            wear: None,
         }
     }
 }
@@ -389,11 +540,44 @@ impl Hist {
             ops,
             monitor: *rng.pick(&[0u8, 1, 2]),
             check_every: *rng.pick(&[1usize, 1, 3]),
+            wear: None,
         }
     }
 }
 
 impl Hist {
+    fn generate_wear(&self, rng: &mut Rng) -> HistSc {
+        let fl = self.flavours();
+        let mut flavour = fl[rng.below(fl.len())].to_string();
+        if let Some(f) = crate::runner::only_flavour() {
+            if fl.contains(&f.as_str()) {
+                flavour = f;
+            }
+        }
+        let front = *rng.pick(&[0u8, 0, 1, 1, 2]);
+        // the interesting totals are powers of two (a counter of b bits is back where it was);
+        // the front removal is one change of its own
+        let base = *rng.pick(&[256usize, 256, 256, 512, 1024, 4096, 4096, 4096, 8192, 65536, 65536]);
+        let k = match rng.below(10) {
+            0..=5 => base - (front != 2) as usize,
+            6 => base,
+            7 => base - 1,
+            8 => base + 1,
+            _ => base.saturating_sub(2),
+        };
+        HistSc {
+            flavour,
+            prios: vec![0, 1, 2, 3],
+            in_graph: false,
+            hash_seed: rng.next_u64(),
+            initial: Vec::new(),
+            ops: Vec::new(),
+            monitor: 1,
+            check_every: 1,
+            wear: Some(Wear { k, side: rng.below(2) as u8, lookup: *rng.pick(&[0u8, 1, 1, 2, 3]), front, last_by_other: rng.coin(), layout: rng.below(4) as u8 }),
+        }
+    }
+
     /// A hub with 1030-2100 incident edges - several hundred distinct neighbours, some of them
     /// joined by two or three parallel edges - then a handful of removals and lookups around it.
     fn generate_mega_hub(&self, rng: &mut Rng) -> HistSc {
@@ -450,6 +634,7 @@ impl Hist {
             ops,
             monitor: *rng.pick(&[0u8, 2, 2]),
             check_every: 1000,
+            wear: None,
         }
     }
 
@@ -505,6 +690,7 @@ impl Hist {
             ops,
             monitor: *rng.pick(&[0u8, 1]),
             check_every: 16,
+            wear: None,
         }
     }
 }
@@ -528,6 +714,9 @@ impl Engine for Hist {
         }
         if rng.chance(1, 12_000) {
             return self.generate_mega_hub(rng);
+        }
+        if rng.chance(1, 1500) {
+            return self.generate_wear(rng);
         }
         let fl = self.flavours();
         let mut flavour = fl[rng.below(fl.len())].to_string();
@@ -601,6 +790,7 @@ impl Engine for Hist {
             ops,
             monitor: *rng.pick(&[0u8, 0, 1, 2, 2]),
             check_every: *rng.pick(&[1usize, 1, 1, 2, 5, 1000]),
+            wear: None,
         }
     }
 
@@ -617,6 +807,18 @@ impl Engine for Hist {
 
     fn shrink(&self, sc: &HistSc) -> Vec<HistSc> {
         let mut out = Vec::new();
+        if let Some(w) = &sc.wear {
+            // fewer changes: the same distance from a smaller power of two
+            const BASES: [usize; 6] = [256, 512, 1024, 4096, 8192, 65536];
+            let near = *BASES.iter().min_by_key(|b| (**b as isize - w.k as isize).abs()).unwrap();
+            let delta = near as isize - w.k as isize;
+            for b in BASES.iter().filter(|b| **b < near) {
+                let mut c = sc.clone();
+                c.wear.as_mut().unwrap().k = (*b as isize - delta).max(1) as usize;
+                out.push(c);
+            }
+            return out;
+        }
         // drop nodes nobody uses
         for k in (0..sc.prios.len()).rev() {
             if sc.prios.len() > 1 {
@@ -667,7 +869,8 @@ impl Engine for Hist {
     }
 
     fn size(&self, sc: &HistSc) -> usize {
-        sc.ops.len() * 8
+        sc.wear.as_ref().map(|w| w.k / 8 + (w.lookup != 3) as usize + (w.front != 2) as usize).unwrap_or(0)
+            + sc.ops.len() * 8
             + sc.initial.len() * 4
             + sc.prios.len() * 2
             + sc.in_graph as usize
